@@ -252,9 +252,11 @@ func c08Exec(sc c08Scenario, kind string, trigger int, timeoutFlavour bool, clie
 	// the instant right after the dial goroutine handed its connection to the waiting request
 	// (wantConn.tryDeliver): a cancellation here races the pick-up — either the request takes the
 	// connection (and tears it down) or wantConn.cancel finds it delivered and returns it to the pool
-	if sc.proto != "h3" && !sc.waitConn {
+	if sc.proto != "h3" {
 		testHookPostPendingDial = func() {
-			if r := d.run.Load(); r != nil {
+			// (runs at the very end of Transport.dialConnFor: connection delivered or pooled)
+			atomic.AddInt32(&run.dialConnDone, 1)
+			if r := d.run.Load(); r != nil && !sc.waitConn {
 				r.hit("", "delivered", true)
 			}
 		}
@@ -412,16 +414,14 @@ func c08Exec(sc c08Scenario, kind string, trigger int, timeoutFlavour bool, clie
 		}
 	}
 
-	// a dial that was still running goes on, detached, and its connection goes to the pool
-	if dialInFlight {
-		c08WaitFor(c08Bound, func() bool { return atomic.LoadInt32(&run.dialsStarted) <= atomic.LoadInt32(&run.dialsDone) })
-		switch sc.proto {
-		case "h1":
-			c08WaitFor(c08Bound, func() bool { return c08IdleCount(c.GetTransport()) > 0 })
-		case "h2":
-			c08WaitFor(c08Bound, func() bool { return atomic.LoadInt32(&run.hsDone) > 0 })
-			c08WaitFor(c08Bound, func() bool { return c08HasGoroutine("http2.(*ClientConn).readLoop") })
-		}
+	// a dial that was still running goes on, detached, and its connection goes to the pool: wait
+	// for every dial goroutine of the transport to be through (handshake, delivery / pooling)
+	_ = dialInFlight
+	c08WaitFor(2*c08Bound, func() bool { return atomic.LoadInt32(&run.dialsStarted) <= atomic.LoadInt32(&run.dialsDone) })
+	if sc.proto != "h3" {
+		c08WaitFor(2*c08Bound, func() bool {
+			return atomic.LoadInt32(&run.dialConnDone) >= atomic.LoadInt32(&run.dialsStarted)
+		})
 	}
 	if h2 != nil {
 		// the handler reports whether it saw the stream die
